@@ -120,7 +120,36 @@ type vwMore struct {
 	RichNoDist    []vwRich   `json:"richNoDist"`
 	DistAddrs     []string   `json:"distAddrs"`
 	LockedAddrs   []string   `json:"lockedAddrs"`
+	ByHash        []vwByHash `json:"byHash"`
+	BySeqV        []vwByHash `json:"bySeqV"`
+	SeqsV         []vwVBlock `json:"seqsV"`
+	OneBySeq      []vwByHash `json:"oneBySeq"`
+	Lookup        []vwLookup `json:"lookup"`
+	PoolVerbose   []vwVTxn   `json:"poolVerbose"`
+	PoolVerboseOK bool       `json:"poolVerboseOK"`
+	PayQ          []string   `json:"payQ"`
+	Paying        []string   `json:"paying"`
+	RecvQ         []string   `json:"recvQ"`
+	Recv          []string   `json:"recv"`
+	SpendsOK      bool       `json:"spendsOK"`
+	Spends        []string   `json:"spends"`
 	Errs          []string   `json:"errs"`
+}
+
+// a single block asked for by hash or by sequence number (Seq is the number asked for, or -1)
+type vwByHash struct {
+	Asked   string   `json:"asked"`
+	Seq     int      `json:"seq"`
+	Found   bool     `json:"found"`
+	Refused bool     `json:"refused"`
+	Verbose bool     `json:"verbose"`
+	Block   vwVBlock `json:"block"`
+}
+
+type vwLookup struct {
+	Hash      string `json:"hash"`
+	Confirmed bool   `json:"confirmed"`
+	Pending   bool   `json:"pending"`
 }
 
 type vwRich struct {
@@ -452,7 +481,9 @@ func vwVBlocks(bs []coin.SignedBlock, ins [][][]TransactionInput) ([]vwVBlock, e
 func vwMoreViews(N *vlNode, head coin.SignedBlock, ptxns coin.Transactions, chain []vwBlock, addrs []cipher.Address, seed int) vwMore {
 	m := vwMore{Seqs: []uint64{}, BySeqs: []string{}, Since: []string{}, PoolFlags: []vpEntry{}, ValidPool: []string{}, KnownQ: []string{}, Known: []string{}, Unknown: []string{},
 		Status: []vwStatus{}, VRange: []vwVBlock{}, VLast: []vwVBlock{}, SumFilter: []string{}, SumConfirmed: []string{}, SumOutgoing: []string{}, SumIncoming: []string{},
-		RichAll: []vwRich{}, RichNoDist: []vwRich{}, DistAddrs: []string{}, LockedAddrs: []string{}, Errs: []string{}}
+		RichAll: []vwRich{}, RichNoDist: []vwRich{}, DistAddrs: []string{}, LockedAddrs: []string{}, Errs: []string{},
+		ByHash: []vwByHash{}, BySeqV: []vwByHash{}, SeqsV: []vwVBlock{}, OneBySeq: []vwByHash{}, Lookup: []vwLookup{}, PoolVerbose: []vwVTxn{}, PayQ: []string{}, Paying: []string{},
+		RecvQ: []string{}, Recv: []string{}, Spends: []string{}}
 	n := head.Head.BkSeq + 1
 	// blocks by a list of sequence numbers (any order, repeats), and a list with a sequence number beyond the head
 	for k := 0; k < 1+seed%4; k++ {
@@ -588,6 +619,168 @@ func vwMoreViews(N *vlNode, head coin.SignedBlock, ptxns coin.Transactions, chai
 		m.VLast, err = vwVBlocks(bs, ins)
 		return err
 	})
+	// single blocks: by hash (plain and verbose; a hash that is no block's), by sequence number (verbose; one beyond the head),
+	// GetBlock (which refuses numbers beyond the head), and the verbose form of the sequence list
+	noBlock := vwVBlock{Txns: []vwVTxn{}}
+	one := func(b *coin.SignedBlock, ins [][]TransactionInput, verbose bool) (vwVBlock, error) {
+		if !verbose {
+			return vwVBlock{Hash: b.HashHeader().Hex(), Txns: []vwVTxn{}}, nil
+		}
+		vb, err := vwVBlocks([]coin.SignedBlock{*b}, [][][]TransactionInput{ins})
+		if err != nil {
+			return noBlock, err
+		}
+		return vb[0], nil
+	}
+	hq := []cipher.SHA256{strange}
+	for k := 0; k < 3 && k < len(chain); k++ {
+		hq = append(hq, cipher.MustSHA256FromHex(chain[(seed*5+k*3)%len(chain)].Hash))
+	}
+	for i, h := range hq {
+		h, verbose := h, (i+seed)%2 == 0
+		vwTry(&m.Errs, "GetSignedBlockByHash", func() error {
+			x := vwByHash{Asked: h.Hex(), Seq: -1, Verbose: verbose, Block: noBlock}
+			var b *coin.SignedBlock
+			var ins [][]TransactionInput
+			var err error
+			if verbose {
+				b, ins, err = N.v.GetSignedBlockByHashVerbose(h)
+			} else {
+				b, err = N.v.GetSignedBlockByHash(h)
+			}
+			if err != nil {
+				return err
+			}
+			if b != nil {
+				x.Found = true
+				if x.Block, err = one(b, ins, verbose); err != nil {
+					return err
+				}
+			}
+			m.ByHash = append(m.ByHash, x)
+			return nil
+		})
+	}
+	for _, q := range []uint64{uint64(seed) % n, n + uint64(seed%2)} {
+		q := q
+		vwTry(&m.Errs, "GetSignedBlockBySeqVerbose", func() error {
+			x := vwByHash{Seq: int(q), Verbose: true, Block: noBlock}
+			b, ins, err := N.v.GetSignedBlockBySeqVerbose(q)
+			if err != nil {
+				return err
+			}
+			if b != nil {
+				x.Found = true
+				if x.Block, err = one(b, ins, true); err != nil {
+					return err
+				}
+			}
+			m.BySeqV = append(m.BySeqV, x)
+			return nil
+		})
+		x := vwByHash{Seq: int(q), Block: noBlock}
+		func() {
+			defer func() {
+				if p := recover(); p != nil {
+					m.Errs = append(m.Errs, "GetBlock:panic")
+				}
+			}()
+			b, err := N.v.GetBlock(q)
+			if err != nil {
+				x.Refused = true
+			} else if b != nil {
+				x.Found = true
+				x.Block.Hash = b.HashHeader().Hex()
+			}
+		}()
+		m.OneBySeq = append(m.OneBySeq, x)
+	}
+	vwTry(&m.Errs, "GetBlocksVerbose", func() error {
+		bs, ins, err := N.v.GetBlocksVerbose(m.Seqs)
+		if err != nil {
+			return err
+		}
+		m.SeqsV, err = vwVBlocks(bs, ins)
+		return err
+	})
+	// is this hash a confirmed transaction / a pending one
+	for _, h := range sq {
+		h := h
+		vwTry(&m.Errs, "GetConfirmedTransaction/GetUnconfirmedTxn", func() error {
+			ct, err := N.v.GetConfirmedTransaction(h)
+			if err != nil {
+				return err
+			}
+			ut, err := N.v.GetUnconfirmedTxn(h)
+			if err != nil {
+				return err
+			}
+			if ct != nil && ct.Hash() != h || ut != nil && ut.Transaction.Hash() != h {
+				return fmt.Errorf("asked for %s, got another transaction", h.Hex())
+			}
+			m.Lookup = append(m.Lookup, vwLookup{Hash: h.Hex(), Confirmed: ct != nil, Pending: ut != nil})
+			return nil
+		})
+	}
+	// the pool, every input resolved and valued at the head time; pending transactions paying / outputs going to given addresses
+	func() {
+		defer func() {
+			if p := recover(); p != nil {
+				m.Errs = append(m.Errs, "GetAllUnconfirmedTransactionsVerbose:panic")
+			}
+		}()
+		us, ins, err := N.v.GetAllUnconfirmedTransactionsVerbose()
+		if err != nil || len(us) != len(ins) {
+			return
+		}
+		m.PoolVerboseOK = true
+		for i, u := range us {
+			m.PoolVerbose = append(m.PoolVerbose, vwVTxn{Hash: u.Transaction.Hash().Hex(), Ins: vwVIns(ins[i])})
+		}
+	}()
+	if len(addrs) > 0 {
+		pa := append([]cipher.Address{}, addrs[(seed*3)%len(addrs):][:1]...)
+		if seed%3 == 0 && len(addrs) > 1 {
+			pa = append(pa, addrs[(seed*3+1)%len(addrs)])
+		}
+		for _, a := range pa {
+			m.PayQ = append(m.PayQ, a.String())
+		}
+		vwTry(&m.Errs, "GetUnconfirmedTransactions(SendsToAddresses)", func() error {
+			us, err := N.v.GetUnconfirmedTransactions(SendsToAddresses(pa))
+			for _, u := range us {
+				m.Paying = append(m.Paying, u.Transaction.Hash().Hex())
+			}
+			return err
+		})
+		m.RecvQ = m.PayQ
+		vwTry(&m.Errs, "RecvOfAddresses", func() error {
+			aux, err := N.v.RecvOfAddresses(pa)
+			for _, uxs := range aux {
+				for _, ux := range uxs {
+					m.Recv = append(m.Recv, ux.Hash().Hex())
+				}
+			}
+			return err
+		})
+		func() {
+			defer func() {
+				if p := recover(); p != nil {
+					m.Errs = append(m.Errs, "UnconfirmedSpendsOfAddresses:panic")
+				}
+			}()
+			aux, err := N.v.UnconfirmedSpendsOfAddresses(pa)
+			if err != nil {
+				return
+			}
+			m.SpendsOK = true
+			for _, uxs := range aux {
+				for _, ux := range uxs {
+					m.Spends = append(m.Spends, ux.Hash().Hex())
+				}
+			}
+		}()
+	}
 	// the outputs summary (all, or of some addresses) and the rich list; both fail as a whole while the pool still holds a
 	// transaction whose input a block has spent (logged, not a view of a listed property)
 	var flts []OutputsFilter
